@@ -84,8 +84,8 @@ def _rename_lexicons(res, ren):
 
 
 def _chance(draw, k: int, n: int) -> bool:
-    """True with probability k/n (sampled_from is not boundary-biased like integers())."""
-    return draw(st.sampled_from([True] * k + [False] * (n - k)))
+    """True with probability about k/n; False is the simplest value (Hypothesis favours it)."""
+    return draw(st.sampled_from([False] * (n - k) + [True] * k))
 
 
 @st.composite
@@ -93,7 +93,7 @@ def _index(draw, used=(), one_column=False):
     if one_column:
         cols = []
     else:
-        has_status = not _chance(draw, 1, 8)
+        has_status = not _chance(draw, 1, 5)
         has_def = (not _chance(draw, 1, 5)) if has_status else True
         cols = (['status'] if has_status else []) + (['definition'] if has_def else [])
         if len(cols) == 2 and _chance(draw, 1, 4):
@@ -110,7 +110,7 @@ def _index(draw, used=(), one_column=False):
         ids = list(draw(st.permutations(ids)))
     rows = [{'id': i, 'status': draw(st.sampled_from(STATUSES)), 'definition': draw(_definition())}
             for i in ids]
-    if rows and _chance(draw, 1, 6):
+    if rows and _chance(draw, 1, 3):
         # a repeated id with (possibly) other values, anywhere in the file
         dup = {'id': draw(st.sampled_from(ids)),
                'status': draw(st.sampled_from(STATUSES)), 'definition': draw(_definition())}
@@ -125,7 +125,7 @@ def _index(draw, used=(), one_column=False):
         'eol': draw(st.sampled_from(['\n', '\r\n'])),
         'final_eol': not _chance(draw, 1, 4),
         'rows': rows,
-        'filler': N_FILLER if _chance(draw, 1, 16) else 0,
+        'filler': N_FILLER if _chance(draw, 1, 10) else 0,
         'route': draw(st.sampled_from(['file'] * 4 + INDEX_ROUTES[1:])),
     }
 
@@ -592,7 +592,7 @@ def _strategy_one_column(tier):
 
 SUBS = [
     Sub('interleavings', oracle, _classify, strategy=_strategy,
-        budget={'quick': 40, 'thorough': 150}, fingerprint=_fp, sample=_sample,
+        budget={'quick': 60, 'thorough': 150}, fingerprint=_fp, sample=_sample,
         require_tags=('listed-used', 'listed-unused', 'unlisted-used', 'index-between',
                       'index-first', 'index-twice', 'header:upper', 'header:lower',
                       'eol:crlf', 'eol:lf', 'cols:status+definition', 'cols:status',
